@@ -90,7 +90,14 @@ func (v *globValidator) init(pat string) {
 	v.prec = false
 	v.scan.Init(strings.NewReader(pat))
 	v.scan.Error = func(s *scanner.Scanner, m string) {
-		v.error(fmt.Sprintf("error while scanning glob pattern %q: %s", pat, m))
+		// The scanner reports an error when it reads a character ahead. The character is not eaten yet
+		// so the column must not be adjusted as v.error() does
+		p := s.Pos()
+		c := p.Column
+		if p.Line > 1 {
+			c = 0 // fallback to 0
+		}
+		v.errs = append(v.errs, InvalidGlobPattern{fmt.Sprintf("error while scanning glob pattern %q: %s", pat, m), c})
 	}
 }
 
